@@ -913,6 +913,8 @@ const smtPrelude = `(set-option :produce-models true)
 (declare-fun sbyte (Str Int) Int)
 (declare-fun sless (Str Str) Bool)
 (assert (forall ((a Str) (b Str)) (! (= (ssub (sconcat a b) 0 (slen a)) a) :pattern ((ssub (sconcat a b) 0 (slen a))))))
+(declare-fun sdrop (Str Int) Str)
+(assert (forall ((a Str) (b Str)) (! (and (= (sdrop (sconcat a b) (slen a)) b) (= (ssub (sconcat a b) 0 (slen a)) a) (= (slen (sconcat a b)) (+ (slen a) (slen b)))) :pattern ((sconcat a b)))))
 (assert (forall ((a Str)) (! (and (= (sconcat strEmpty a) a) (= (sconcat a strEmpty) a)) :pattern ((sconcat strEmpty a)) :pattern ((sconcat a strEmpty)))))
 (declare-fun ix (Int Int) Int)
 (assert (forall ((o Int) (i Int)) (! (= (ix o i) (+ o i)) :pattern ((ix o i)))))
